@@ -435,6 +435,10 @@ func (c07) Exec(script interface{}, c *core.Ctx) {
 			c.Probe("bufio_reader_and_first_packet_pid_4_to_15")
 		}
 	}
+	if s.Wrap == 0 && s.Salt%5 == 3 {
+		rd = parties.RefusingSeeker{Reader: sr}
+		c.Probe("reader_has_a_seek_method_that_refuses")
+	}
 	if !c.Call("psi.ReadPAT", func() { p, err = psi.ReadPAT(rd) }) {
 		return
 	}
